@@ -19,12 +19,30 @@ import (
 )
 
 const (
-	repoDir   = "/repo"
-	verifDir  = "/verif"
-	modPath   = "github.com/ogen-go/ogen"
-	zzImport  = modPath + "/internal/zzverif"
-	zzVirtual = repoDir + "/internal/zzverif/zzverif.go"
+	verifDir = "/verif"
+	modPath  = "github.com/ogen-go/ogen"
+	zzImport = modPath + "/internal/zzverif"
 )
+
+// repoDir is /repo. SYMGO_REPO (debug only: validating the machinery against a
+// scratch copy while /repo is busy) redirects it; evidence and replays then go
+// to SYMGO_OUT, never to /verif/evidence.
+var (
+	repoDir   = "/repo"
+	outDir    = verifDir
+	zzVirtual string
+)
+
+func init() {
+	if r := os.Getenv("SYMGO_REPO"); r != "" {
+		repoDir = r
+		outDir = os.Getenv("SYMGO_OUT")
+		if outDir == "" {
+			outDir = filepath.Join(os.TempDir(), "symgo-out")
+		}
+	}
+	zzVirtual = repoDir + "/internal/zzverif/zzverif.go"
+}
 
 type CaseSpec struct {
 	Entry   string  `json:"entry"`
@@ -663,7 +681,7 @@ func compileOnlyUnit(id, scratch string, u *UnitSpec, res *unitResult, listed ma
 		}
 		// replay directory: the spec and the command
 		replayCounter[id]++
-		dir := filepath.Join(verifDir, "replays", id, fmt.Sprintf("%03d", replayCounter[id]))
+		dir := filepath.Join(outDir, "replays", id, fmt.Sprintf("%03d", replayCounter[id]))
 		os.RemoveAll(dir)
 		os.MkdirAll(dir, 0o755)
 		if b, err := os.ReadFile(st.specs[name]); err == nil {
